@@ -201,6 +201,9 @@ func newV1(t *testing.T, cfg Config, gated bool) *v1run {
 		}
 		return res
 	}
+	if cfg.Saturated {
+		r.topUp()
+	}
 	v1.VerifHook = r.hook
 	d, err := v1.New(v1.Opts[int]{Ctx: r.ctx, Divider: div, Feedback: r.fb, HandlersQuantity: cfg.H, Inputs: inputs, Output: r.out})
 	v1.VerifHook = nil
@@ -211,7 +214,27 @@ func newV1(t *testing.T, cfg Config, gated bool) *v1run {
 	return r
 }
 
+// topUp (saturated configurations, C05): every registered open buffered input is kept full, so that at every poll of the
+// scheduler "data has been waiting continuously since the discipline was created"
+func (r *v1run) topUp() {
+	for _, p := range r.cfg.Prios {
+		c, ok := r.reg[p]
+		if !ok || r.closedIn[c] || cap(r.ch[c]) == 0 {
+			continue
+		}
+		for len(r.ch[c]) < cap(r.ch[c]) {
+			r.nextItem[c]++
+			r.emit(obs{E: "W", C: uint(c), K: r.nextItem[c]})
+			r.ch[c] <- c*1000 + r.nextItem[c]
+			r.expect[c]++
+		}
+	}
+}
+
 func (r *v1run) next() (v1.VerifEvent, bool) {
+	if r.cfg.Saturated && !r.free.Load() {
+		r.topUp()
+	}
 	if r.atGate {
 		r.atGate = false
 		r.gate <- struct{}{}
@@ -385,6 +408,9 @@ func (r *v1run) envAction(rnd *rand.Rand) bool {
 	var acts []act
 	for c := 1; c <= r.cfg.NC; c++ {
 		c := c
+		if r.cfg.Saturated {
+			continue
+		}
 		if r.canProduce(c) {
 			acts = append(acts, func() { r.produce(c) }, func() { r.produce(c) })
 		}
@@ -511,6 +537,9 @@ func (r *v1run) finish() {
 		r.next()
 		r.observe()
 	}
+	if r.cfg.Saturated && !r.terminating() && !r.faultBad && !r.exited.Load() {
+		r.satStall()
+	}
 	r.emit(obs{E: "Free"}) // end of the gated (fully logged) prefix validated by Trace_PrioV1
 	r.free.Store(true)
 	close(r.freeCh)
@@ -635,11 +664,19 @@ func resetV1(cfg Config, n int, fault bool) map[string]any {
 		chprio = append(chprio, [2]int{c, cp[c]})
 	}
 	share := [][2]int{}
+	dist := map[uint]uint{}
+	if cfg.Saturated { // the share of C05: the real divider on (all configured priorities, highest first; HandlersQuantity)
+		vals := make([]uint, len(cfg.Prios))
+		for i, p := range cfg.Prios {
+			vals[i] = cfg.val(p)
+		}
+		dist = dividerV1(cfg.Div)(vals, cfg.H, nil)
+	}
 	for _, p := range cfg.Prios {
-		share = append(share, [2]int{int(p), 0})
+		share = append(share, [2]int{int(p), int(dist[cfg.val(p)])})
 	}
 	return map[string]any{"e": "Reset", "path": n, "H": cfg.H, "prios": cfg.Prios, "chans": chans, "chprio": chprio, "live": live,
-		"share": share, "sat": false, "fault": fault, "v1": true, "unordered": false, "cont": "v1", "p": 0, "k": 0, "c": 0, "cfg": cfg.Name}
+		"share": share, "sat": cfg.Saturated, "fault": fault, "v1": true, "unordered": false, "cont": "v1", "p": 0, "k": 0, "c": 0, "cfg": cfg.Name}
 }
 
 // runV1 executes one seeded gated schedule against the real v1 discipline and returns the recorded trace.
@@ -806,6 +843,26 @@ func (r *v1run) aloneScenario() bool {
 	}
 	r.emit(obs{E: "QA", P: p, Held: r.heldCounts(), Note: qnote})
 	return false
+}
+
+// satStall (C05): still gated and topped up before every scheduler step, everything delivered is received and nothing is
+// released any more, until the scheduler has made many steps without a delivery: no release is outstanding then, and every
+// priority must hold exactly its share (Q record).
+func (r *v1run) satStall() {
+	for quiet, i := 0, 0; i < 6000 && quiet < 80 && len(r.held) <= 3*int(r.cfg.H)+8 && !r.exited.Load(); i++ {
+		before := len(r.held)
+		r.next()
+		r.observe()
+		for r.recv() {
+			r.observe() // a scheduler blocked in its write to the output got through: its step is logged in its true position
+		}
+		if len(r.held) > before {
+			quiet = 0
+		} else {
+			quiet++
+		}
+	}
+	r.emit(obs{E: "Q", Held: r.heldCounts()})
 }
 
 // stallScenario (C01 / C17 adversarial continuation): keep every registered open buffered channel full, receive everything,
